@@ -404,6 +404,20 @@ def _late_fields(ctx: Ctx, c: Collector) -> None:
     for qn in (SHUTDOWN, "mosaik.simmanager.SimRunner.stop"):
         for e in ctx.summ(qn).events:
             region.append((qn, e))
+    # short-circuit guards inside one expression: `x.f is not None and x.f.done()`, `x.f.g() if x.f else None`
+    import ast as _ast
+    inner_guard: Dict[int, List[str]] = {}
+    for qn in {q for q, _ in region}:
+        for n in _ast.walk(ctx.func(qn).node):
+            if isinstance(n, _ast.BoolOp):
+                for i, v in enumerate(n.values[1:], 1):
+                    texts = [_ast.unparse(u) for u in n.values[:i]]
+                    for m in _ast.walk(v):
+                        inner_guard.setdefault(id(m), []).extend(texts)
+            elif isinstance(n, _ast.IfExp):
+                for br in (n.body, n.orelse):
+                    for m in _ast.walk(br):
+                        inner_guard.setdefault(id(m), []).append(_ast.unparse(n.test))
     hits = []
     for qn, e in region:
         for x in T.subterms((e.term, e.iters)):
@@ -412,6 +426,12 @@ def _late_fields(ctx: Ctx, c: Collector) -> None:
             path = x[1]
             if any(T.contains(g, path) for g in e.guards):
                 continue
+            if any(T.show(path) in txt for txt in inner_guard.get(id(e.node), [])):
+                continue
+            if e.kind == "test" and isinstance(e.node, (_ast.BoolOp, _ast.IfExp)):
+                # the dereference sits inside a compound condition: it is reported (or excused) at the call / attribute event of its own
+                if any(T.show(path) in _ast.unparse(u) for u in (e.node.values[:-1] if isinstance(e.node, _ast.BoolOp) else [e.node.test])):
+                    continue
             hits.append((qn, e, path))
     seen = set()
     for qn, e, path in hits:
